@@ -600,6 +600,9 @@ func (fr *frame) visit(instr ssa.Instruction) continuation {
 			fr.env[instr] = fr.indexValue(instr, idx, instr.Index.Type(), len(x), func(i int) Value { return x[i] })
 		case Str:
 			fr.env[instr] = fr.indexValue(instr, idx, instr.Index.Type(), len(x.b), func(i int) Value { return x.b[i] })
+		case Slice:
+			// (instantiated generic code indexing a []byte | string operand)
+			fr.env[instr] = fr.indexValue(instr, idx, instr.Index.Type(), len(x.a), func(i int) Value { return x.a[i] })
 		default:
 			panic(engineError{fmt.Sprintf("Index on %T", x)})
 		}
